@@ -285,6 +285,12 @@ func run(id, tier string, seed int64, rp *Replay, only, onlyCfg string, par int)
 			}
 		}
 		for _, c := range cl {
+			// "<cfg>:quick" in a thorough list: that configuration runs the quick
+			// case lists also in the thorough tier (slow targets such as 386)
+			forced := ""
+			if strings.HasSuffix(c, ":quick") {
+				c, forced = strings.TrimSuffix(c, ":quick"), "quick"
+			}
 			if onlyCfg != "" && c != onlyCfg {
 				continue
 			}
@@ -307,6 +313,9 @@ func run(id, tier string, seed int64, rp *Replay, only, onlyCfg string, par int)
 						id: fmt.Sprintf("%s.%s.b%d.r%d", u.Name, c, bi, r)}
 					if c == "cover" {
 						jb.tier = "quick"
+					}
+					if forced != "" {
+						jb.tier = forced
 					}
 					jobs = append(jobs, jb)
 				}
